@@ -17,6 +17,7 @@ import (
 	"encoding/json"
 	"fmt"
 	"math/rand"
+	"net"
 	"os"
 	"os/exec"
 	"runtime"
@@ -30,6 +31,7 @@ import (
 	"github.com/TarsCloud/TarsGo/tars/model"
 	"github.com/TarsCloud/TarsGo/tars/protocol/res/basef"
 	"github.com/TarsCloud/TarsGo/tars/protocol/res/requestf"
+	"github.com/TarsCloud/TarsGo/tars/transport"
 	"github.com/TarsCloud/TarsGo/tars/util/current"
 	"github.com/TarsCloud/TarsGo/tars/util/rtimer"
 )
@@ -48,6 +50,7 @@ type c09Obs struct {
 	Calls     []c09CallObs `json:"calls"`
 	Events    []c09Event   `json:"events"`
 	QueueLen  int32        `json:"queue_len"`
+	QueueLens []int32      `json:"queue_lens"` // queueLen of every proxy of the scenario (each must be back to 0 on its own)
 	InvokeNum int32        `json:"invoke_num"`
 	Pending   []int32      `json:"pending"`
 	Stuck     []string     `json:"stuck"`
@@ -86,6 +89,10 @@ type c09Case struct {
 	PrimeAll      bool     `json:"prime_all"`       // one priming call per proxy (in parallel) before the callers start
 	StaggerUs     int      `json:"stagger_us"`      // > 0: the callers of proxy i leave together, i*stagger_us after the first group
 	SmallBuf      bool     `json:"small_buf"`       // the peer's sockets get a tiny receive buffer: a write of some 100 KB already blocks
+	CancelMs      int      `json:"cancel_ms"`       // > 0: the caller cancels the call's context this long after it started the call
+	RejectMod     int      `json:"reject_mod"`      // n > 0: the client filter (cf / mw) rejects every call whose index is n-1 modulo n, without invoking
+	SameObject    bool     `json:"same_object"`     // the further proxies are ServantProxy objects for the SAME object (shared endpoint manager and adapters)
+	Script        string   `json:"script"`          // "" = callers as described; "stale-close" / "held-close": see c09Script
 	HandshakeMs   int      `json:"handshake_ms"`    // tls-slow: delay of the peer's side of the TLS handshake
 	IdleMs        int      `json:"idle_ms"`         // > 0: the client's idle timeout (the sender goroutine checks it once per second)
 	Gaps          []int    `json:"gaps"`            // pause after the j-th call of a caller (overrides gap_ms; the last one repeats)
@@ -225,7 +232,11 @@ func c09RunScenario(c *c09Case) *c09Obs {
 	sps := []*tars.ServantProxy{sp}
 	for i := 1; i < c.Proxies; i++ {
 		h2 := &c09Holder{}
-		comm.StringToProxy(fmt.Sprintf("VerifApp.C09Server.C09Other%d@%s -h 127.0.0.1 -p %d -t 60000", i, proto, peer.port), h2)
+		obj := fmt.Sprintf("VerifApp.C09Server.C09Other%d", i)
+		if c.SameObject {
+			obj = "VerifApp.C09Server.C09Obj" // another ServantProxy for the same object: it shares the endpoint manager and the adapters
+		}
+		comm.StringToProxy(fmt.Sprintf("%s@%s -h 127.0.0.1 -p %d -t 60000", obj, proto, peer.port), h2)
 		if sp2, ok := h2.s.(*tars.ServantProxy); ok {
 			sp2.TarsSetTimeout(c.TimeoutMs)
 			if c.Warm {
@@ -252,7 +263,9 @@ func c09RunScenario(c *c09Case) *c09Obs {
 				adps[a] = true
 			}
 			q += tars.VerifQueueLen(p)
-			n += tars.VerifInvokeNum(p)
+			if !c.SameObject || p == sps[0] { // proxies for one object share the endpoint manager and so its invokeNum
+				n += tars.VerifInvokeNum(p)
+			}
 		}
 		var ids []int32
 		for a := range adps {
@@ -261,7 +274,7 @@ func c09RunScenario(c *c09Case) *c09Obs {
 		amu.Unlock()
 		return q, n, ids
 	}
-	seq := c.Callers == 1
+	seq := c.Callers == 1 && c.Script == ""
 	var vmu sync.Mutex
 	checkSeq := func(where string, call int, q, n int32, p []int32, wantN int32) {
 		if !seq {
@@ -302,11 +315,23 @@ func c09RunScenario(c *c09Case) *c09Obs {
 			time.Sleep(time.Duration(c.FilterSleepMs) * time.Millisecond)
 		}
 	}
+	// a client filter that turns some calls away without invoking them
+	rejected := func(ctx context.Context) error {
+		call, _ := ctx.Value(c09CtxKey{}).(int)
+		if c.RejectMod > 0 && call%c.RejectMod == c.RejectMod-1 {
+			return fmt.Errorf("rejected by the client filter")
+		}
+		return nil
+	}
 	if c.Filter == "mw" {
 		tars.UseClientFilterMiddleware(func(next tars.ClientFilter) tars.ClientFilter {
 			return func(ctx context.Context, msg *tars.Message, invoke tars.Invoke, timeout time.Duration) error {
 				pre(ctx, msg)
 				nap()
+				if rerr := rejected(ctx); rerr != nil {
+					post(ctx, msg, rerr)
+					return rerr
+				}
 				err := next(ctx, msg, invoke, timeout)
 				post(ctx, msg, err)
 				return err
@@ -316,6 +341,10 @@ func c09RunScenario(c *c09Case) *c09Obs {
 		tars.RegisterClientFilter(func(ctx context.Context, msg *tars.Message, invoke tars.Invoke, timeout time.Duration) error {
 			pre(ctx, msg)
 			nap()
+			if rerr := rejected(ctx); rerr != nil {
+				post(ctx, msg, rerr)
+				return rerr
+			}
 			err := invoke(ctx, msg, timeout)
 			post(ctx, msg, err)
 			return err
@@ -370,6 +399,13 @@ func c09RunScenario(c *c09Case) *c09Obs {
 		if c.CtxMs > 0 {
 			ctx, cancel = context.WithTimeout(ctx, time.Duration(c.CtxMs)*time.Millisecond)
 		}
+		if c.CancelMs > 0 { // the caller cancels its context while the call is under way
+			var cf context.CancelFunc
+			ctx, cf = context.WithCancel(ctx)
+			tm := time.AfterFunc(time.Duration(c.CancelMs)*time.Millisecond, cf)
+			prev := cancel
+			cancel = func() { tm.Stop(); cf(); prev() }
+		}
 		var resp requestf.ResponsePacket
 		log.add(c09Event{Kind: "start", Call: call})
 		t0 := time.Now()
@@ -417,7 +453,15 @@ func c09RunScenario(c *c09Case) *c09Obs {
 		results[call] = c09CallObs{Call: call, Caller: k, ID: infos[call].id, StartMs: t0.Sub(log.t0).Milliseconds(), DurMs: dur.Milliseconds(), Out: out, Err: es}
 		rmu.Unlock()
 	}
-	for k := 0; k < c.Callers; k++ {
+	if c.Script != "" {
+		wg.Add(1)
+		go func() {
+			defer wg.Done()
+			<-start
+			c09Script(c, sps[0], peer, log, doCall)
+		}()
+	}
+	for k := 0; k < c.Callers && c.Script == ""; k++ {
 		wg.Add(1)
 		go func(k int) {
 			defer wg.Done()
@@ -528,6 +572,9 @@ func c09RunScenario(c *c09Case) *c09Obs {
 	<-sampled
 	// the counters are read immediately after the last call returned
 	obs.QueueLen, obs.InvokeNum, obs.Pending = snapshot()
+	for _, p := range sps {
+		obs.QueueLens = append(obs.QueueLens, tars.VerifQueueLen(p))
+	}
 	rmu.Lock()
 	obs.Calls = append([]c09CallObs(nil), results...)
 	rmu.Unlock()
@@ -722,6 +769,14 @@ func c09Monitors(c *c09Case) (fails []Failure, timing bool) {
 			timing = true
 		}
 	}
+	if c.Conn == "tls-slow" && c.HandshakeMs < c.DialMs {
+		// a handshake that was to finish well inside DialTimeout but did not (overloaded machine): run again
+		for _, r := range o.Calls {
+			if r.Out == "error" {
+				timing = true
+			}
+		}
+	}
 	// M2 outcome: the reply (its own), an error, or the timeout error
 	for _, r := range o.Calls {
 		if r.Out == "badreply" {
@@ -746,6 +801,12 @@ func c09Monitors(c *c09Case) (fails []Failure, timing bool) {
 				what = append(what, "invokeNum")
 			}
 			add("not-restored/"+strings.Join(what, "+"), fmt.Sprintf("%s: after all %d calls returned: queueLen=%d pending-reply table=%v invokeNum=%d (all must be back to 0/empty)", c.Name, len(o.Calls), o.QueueLen, o.Pending, o.InvokeNum))
+		}
+	}
+	for pi, q := range o.QueueLens {
+		if q != 0 && o.QueueLen == 0 {
+			add("not-restored/queueLen-per-proxy", fmt.Sprintf("%s: after all calls returned the queueLen of proxy %d of %d is %d (the proxies' counters %v add up to 0, but each proxy must be back to 0 on its own)", c.Name, pi, len(o.QueueLens), q, o.QueueLens))
+			break
 		}
 	}
 	if len(o.SeqViol) > 0 {
@@ -913,10 +974,35 @@ func c09Coq(c *c09Case) string {
 		}
 		nconn = fmt.Sprintf("(Some %d)", acc)
 	}
-	return fmt.Sprintf("mkcase (mkcfg %d %d %d %d %d %d) %s [%s] %d %d %d [%s] %s %s %s %s %s [%s] [%s] (%d, %d, %d)",
+	canc := "None"
+	if c.CancelMs > 0 {
+		canc = fmt.Sprintf("(Some %d)", c09U(c.CancelMs))
+	}
+	return fmt.Sprintf("mkcase (mkcfg %d %d %d %d %d %d) %s [%s] %d %d %s [%s] %s %d %s %d %s %s %s %s [%s] [%s] (%d, %d, %d)",
 		c09U(c.DialMs), c09U(c.WriteMs), c09U(c.ReadMs), c.QueueLen, objMax, idle, conn, strings.Join(acts, "; "),
-		c.Callers, c.Calls, c09U(c.eff()), strings.Join(gl, "; "), coqBool(c.OneWay), coqBool(c.Prime && c.Callers > 1), pred, nconn, held, strings.Join(obs, "; "), strings.Join(evs, "; "),
+		c.Callers, c.Calls, c09Tmo(c), strings.Join(gl, "; "), coqBool(c.OneWay), c09ModelProxies(c), canc, c.RejectMod, coqBool(c.Prime && c.Callers > 1), pred, nconn, held, strings.Join(obs, "; "), strings.Join(evs, "; "),
 		c09NN(o.QueueLen), c09NN(o.InvokeNum), len(o.Pending))
+}
+
+// c09ModelProxies: the number of ServantProxy objects for the one object as the model counts them (0 = one proxy)
+func c09ModelProxies(c *c09Case) int {
+	if c.SameObject && c.Proxies > 1 {
+		return c.Proxies
+	}
+	return 0
+}
+
+// c09Tmo renders the three sources of the call's timeout as they are (the model derives the effective timeout itself)
+func c09Tmo(c *c09Case) string {
+	z := func(ms int) string { return fmt.Sprintf("(%d)%%Z", ms/10) }
+	pc, cx := "None", "None"
+	if c.PerCallSet || c.PerCallMs > 0 {
+		pc = "(Some " + z(c.PerCallMs) + ")"
+	}
+	if c.CtxMs > 0 {
+		cx = fmt.Sprintf("(Some %d)", c09U(c.CtxMs))
+	}
+	return fmt.Sprintf("(mktmo %s %s %s)", z(c.TimeoutMs), pc, cx)
 }
 
 // ids and counters are rendered as naturals (a negative value can only come from a defect and is mapped to a large number)
@@ -1132,14 +1218,14 @@ func c09Gen(tier string, rng *rand.Rand) []c09Case {
 		cs = append(cs, c)
 		// ... or answers it late, inside / outside DialTimeout
 		c = base("tls-handshake-slow", "tls-slow", []c09Act{{Do: "reply"}})
-		c.DialMs = 400
+		c.DialMs = 900 // wide margin: under load the handshake itself takes its time
 		c.HandshakeMs = pick(100, 150, 200)
 		c.TimeoutMs = pick(300, 350)
 		c.Calls = 3
 		c.GapMs = 10
 		cs = append(cs, c)
 		c = base("tls-handshake-slow-concurrent", "tls-slow", []c09Act{{Do: "reply", DelayMs: 20}})
-		c.DialMs = 400
+		c.DialMs = 900
 		c.HandshakeMs = pick(100, 200)
 		c.TimeoutMs = 300
 		c.Callers = pick(2, 4)
@@ -1310,6 +1396,88 @@ func c09Gen(tier string, rng *rand.Rand) []c09Case {
 		c.Calls = 2
 		c.GapMs = 20
 		cs = append(cs, c)
+		// ---- the caller cancels its context while the call waits (silent and slow peers, with and without a deadline of its
+		// own, before and after the deadline): the call returns at once with the timeout error and leaves nothing behind
+		c = base("cancel-sequential", "accept", []c09Act{{"reply", 0}, {"none", 0}, {"reply", 350}, {"reply", 30}})
+		c.TimeoutMs = pick(300, 400)
+		c.CancelMs = pick(80, 120, 150)
+		c.Calls = 4
+		c.GapMs = 10
+		cs = append(cs, c)
+		c = base("cancel-concurrent", "accept", []c09Act{{Do: "none"}})
+		c.TimeoutMs = pick(300, 400)
+		c.CancelMs = pick(80, 120)
+		c.Callers = pick(2, 8, 16)
+		cs = append(cs, maybePrime(c))
+		c = base("cancel-with-caller-deadline", "accept", []c09Act{{"reply", 0}, {"none", 0}})
+		c.TimeoutMs = 600
+		c.CtxMs = pick(250, 300)
+		c.CancelMs = pick(80, 120)
+		c.Calls = 2
+		cs = append(cs, c)
+		c = base("cancel-after-deadline", "accept", []c09Act{{"reply", 0}, {"none", 0}})
+		c.TimeoutMs = pick(200, 250)
+		c.CancelMs = c.TimeoutMs + 150
+		c.Calls = 2
+		cs = append(cs, c)
+		// ---- a client filter rejects calls without invoking them: an error at once, nothing registered, postInvoke still runs
+		c = base("filter-reject-sequential", "accept", rep(pick(0, 20)))
+		c.Filter = []string{"cf", "mw"}[rng.Intn(2)]
+		c.RejectMod = pick(2, 3)
+		c.Calls = 6
+		c.GapMs = 10
+		cs = append(cs, c)
+		c = base("filter-reject-all-concurrent", "accept", rep(0))
+		c.Filter = []string{"cf", "mw"}[rng.Intn(2)]
+		c.RejectMod = 1
+		c.Callers = pick(4, 16)
+		cs = append(cs, c)
+		c = base("filter-reject-some-concurrent", "accept", []c09Act{{Do: "none"}})
+		c.Filter = []string{"cf", "mw"}[rng.Intn(2)]
+		c.RejectMod = 3
+		c.Callers = pick(6, 12)
+		c.Calls = 2
+		c.Predict = false
+		cs = append(cs, c)
+		// ---- several ServantProxy objects for ONE object (they share the endpoint manager and its adapters) with overlapping
+		// calls: every proxy's own queueLen is back to 0 (the model's counter is one proxy's: the sums are predicted)
+		c = base("same-object-proxies-overlap", "accept", rep(pick(40, 60)))
+		c.Proxies = pick(2, 3)
+		c.SameObject = true
+		c.Callers = pick(4, 6, 12)
+		c.Calls = 3
+		c.Predict = false // the callers' later calls start at their own pace
+		cs = append(cs, c)
+		c = base("same-object-proxies-overlap-once", "accept", rep(pick(40, 60)))
+		c.Proxies = pick(2, 3)
+		c.SameObject = true
+		c.Callers = pick(4, 6, 12)
+		cs = append(cs, maybePrime(c))
+		c = base("same-object-proxies-timeouts", "accept", []c09Act{{Do: "none"}})
+		c.Proxies = 2
+		c.SameObject = true
+		c.Callers = pick(2, 4, 8)
+		cs = append(cs, c)
+		c = base("same-object-proxies-refused", "refuse", []c09Act{{Do: "none"}})
+		c.Proxies = 2
+		c.SameObject = true
+		c.Callers = pick(2, 6)
+		c.Calls = 2
+		c.Predict = false
+		cs = append(cs, c)
+		// ---- scripted connection loss with the send goroutine held in front of its write: the close of a connection that is
+		// no longer current ("stale-close": the peer closes, the receiver marks the client closed, another call reconnects,
+		// only then the held sender writes, fails and closes its old connection), and the same with the sender released
+		// before anybody reconnects ("held-close"); further calls must return by their deadlines, nothing left behind
+		for _, sc := range []string{"stale-close", "held-close"} {
+			c = base(sc, "accept", rep(0))
+			c.Script = sc
+			c.TimeoutMs = 600
+			c.Calls = pick(5, 6)
+			c.QueueLen = 100
+			c.Predict = false
+			cs = append(cs, c)
+		}
 		// datagram transport: no connection to establish or lose
 		c = base("udp-mixed-sequential", "udp", nil)
 		T = c.TimeoutMs
@@ -1413,6 +1581,68 @@ func c09Gen(tier string, rng *rand.Rand) []c09Case {
 		}
 	}
 	return cs
+}
+
+// c09Script runs an orchestrated sequence on one proxy (calls 0 .. c.Calls-1):
+//
+//	call 0 is answered and establishes connection A; call 1's request is taken by A's send goroutine, which is held just
+//	before its write (transport.VerifC11OnWrite); the peer closes A; the client is seen marked closed;
+//	"stale-close": call 2 reconnects (B is current) and is answered, then the held sender is released: its write on A fails
+//	               and it closes A, which is not the current connection any more;
+//	"held-close":  the held sender is released first (its connection is still the current one), then call 2 reconnects;
+//	call 1 returns (its request is re-queued for the new connection), the remaining calls follow one after the other.
+func c09Script(c *c09Case, sp *tars.ServantProxy, peer *c09Peer, log *c09Log, doCall func(call, k int)) {
+	hold, held := make(chan struct{}), make(chan struct{}, 1)
+	var once sync.Once
+	tag := []byte{0xA0, 0, 0, 1} // the payload tag of call 1
+	transport.VerifC11OnWrite = func(tc *transport.TarsClient, conn net.Conn, req []byte, current bool, closedFlag bool) {
+		if bytes.Contains(req, tag) {
+			once.Do(func() {
+				held <- struct{}{}
+				select {
+				case <-hold:
+				case <-time.After(5 * time.Second):
+				}
+			})
+		}
+	}
+	defer func() { transport.VerifC11OnWrite = nil }()
+	doCall(0, 0)
+	d1 := make(chan struct{})
+	go func() { doCall(1, 0); close(d1) }()
+	select {
+	case <-held:
+	case <-time.After(3 * time.Second):
+		close(hold)
+		<-d1
+		return
+	}
+	peer.closeConns()
+	var tc *transport.TarsClient
+	if adps := tars.VerifAdapters(sp); len(adps) > 0 {
+		tc = tars.VerifTarsClient(adps[0])
+	}
+	for deadline := time.Now().Add(3 * time.Second); tc != nil && time.Now().Before(deadline); time.Sleep(200 * time.Microsecond) {
+		if closed, _ := transport.VerifC11Conn(tc); closed {
+			break
+		}
+	}
+	if c.Script == "held-close" {
+		close(hold)
+		time.Sleep(20 * time.Millisecond)
+		doCall(2, 0)
+	} else {
+		doCall(2, 0)
+		close(hold)
+	}
+	select {
+	case <-d1:
+	case <-time.After(time.Duration(c.eff()+c.DialMs+c.WriteMs+3000) * time.Millisecond):
+	}
+	for j := 3; j < c.Calls; j++ {
+		doCall(j, 0)
+		time.Sleep(10 * time.Millisecond)
+	}
 }
 
 func c09TransportRaceCase(base func(name, conn string, acts []c09Act) c09Case, pick func(l ...int) int) c09Case {
